@@ -66,6 +66,18 @@ def oracle_typing(c):
                     if missing:
                         fails.append(Failure(f"flag_not_shared:{kind}", f"description {kind}_flags {missing!r} missing on tract[{i}] ({t.trs})", **ctx))
                         break
+    if committed:
+        # parsing the tracts into lots / aliquots again (twice) must not cost them the description's flags
+        d.parse_tracts()
+        d.parse_tracts()
+        for i, t in enumerate(d.tracts):
+            check_flag_lists(t, f"tract[{i}] after parse_tracts", fails, ctx)
+            for kind in ("w", "e"):
+                mine = getattr(t, f"{kind}_flags")
+                missing = [f for f in getattr(d, f"{kind}_flags") if isinstance(f, str) and f not in mine]
+                if missing:
+                    fails.append(Failure(f"flag_not_shared_after_reparse:{kind}", f"after parse_tracts() twice, description {kind}_flags {missing!r} are missing on tract[{i}] ({t.trs})", **ctx))
+                    break
     if committed and any(t.trs_is_error() for t in tracts) and not d.e_flags:
         fails.append(Failure("error_trs_without_flag", f"a tract has an undecipherable Twp/Rge/Sec but e_flags is empty: {[t.trs for t in tracts]}", **ctx))
     _last["flags"] = n_flags
@@ -111,11 +123,24 @@ def planted(draw):
         s["block"] = s["block"] + draw(st.sampled_from([", ", " ", ",\n"])) + phrase + " " + tail
         plants.append([k, phrase])
     return {"d": {"layout": d["layout"], "groups": groups}, "plants": plants,
-            "config": draw(st.sampled_from(["", "segment", "parse_qq", "segment,parse_qq", "sec_colon_cautious"]))}
+            "config": draw(st.sampled_from(["", "segment", "parse_qq", "segment,parse_qq", "sec_colon_cautious", "copy_all", "layout.copy_all,segment",
+                                            "sec_colon_required", "sec_within"])),
+            # 'strip': the Twp/Rges or the section words are taken out, so that copy_all is deduced rather than requested
+            "strip": draw(st.sampled_from(["none", "none", "none", "twprge", "sections"]))}
+
+
+def planted_text(c):
+    text = G.render(c["d"])
+    if c.get("strip") == "twprge":
+        for g in c["d"]["groups"]:
+            text = text.replace(G.render_twprge(g), "the above township")
+    elif c.get("strip") == "sections":
+        text = re.sub(r"(?i)(sections?|sects?\.?|secs?\.?|§)", "parcel", text)
+    return text
 
 
 def oracle_planted(c):
-    text = G.render(c["d"])
+    text = planted_text(c)
     d = PLSSDesc(text, config=c["config"])
     fails = []
     ctx = dict(text=text, config=c["config"], w_flags=list(d.w_flags), w_flag_lines=[list(x) if isinstance(x, tuple) else x for x in d.w_flag_lines])
@@ -142,7 +167,7 @@ def oracle_planted(c):
 def validate_planted(c):
     if not c["plants"] or not c["d"]["groups"] or any(not g["secs"] for g in c["d"]["groups"]):
         return False
-    text = G.render(c["d"])
+    text = planted_text(c)
     return all(text.count(phrase) >= 1 for _, phrase in c["plants"]) and len({k for k, _ in c["plants"]}) == len(c["plants"])
 
 
@@ -161,10 +186,10 @@ SUBS = [
         render=parsing.render, n={"quick": 1200, "thorough": 12000}, shards={"quick": 8, "thorough": 16}, text_keys=("text",),
         essential=("gen=soup", "gen=damaged", "has_flags", "cfg=segment", "cfg=sec_colon_cautious")),
     Sub("planted", oracle_planted, strategy=lambda tier: planted(), nontrivial=nontrivial, validate=validate_planted,
-        classes=lambda c: [f"kind={k}" for k, _ in c["plants"]] + [f"config={c['config']}", f"layout={c['d']['layout']}"],
-        render=lambda c: {"text": G.render(c["d"]), "plants": c["plants"], "config": c["config"]},
+        classes=lambda c: [f"kind={k}" for k, _ in c["plants"]] + [f"config={c['config']}", f"layout={c['d']['layout']}", f"strip={c.get('strip')}"],
+        render=lambda c: {"text": planted_text(c), "plants": c["plants"], "config": c["config"]},
         n={"quick": 600, "thorough": 8000}, shards={"quick": 4, "thorough": 16},
-        essential=tuple(f"kind={k}" for k in TRIGGERS)),
+        essential=tuple(f"kind={k}" for k in TRIGGERS) + ("config=copy_all", "strip=twprge", "strip=sections")),
 ]
 
 # thorough tier: coverage-guided fuzzing (atheris / libFuzzer) of the same oracle, see fuzz/fuzz_parse.py
